@@ -158,8 +158,9 @@ pub fn metric<S: Lift, V: Sp<S, N>, const N: usize>(t: &mut Tape, cx: &mut Cx) -
         check!(cx, vv.k_is_magnitude_close_to(S::back(m)), "{}<{}>::is_magnitude_close_to(|v|) on {:?} must be true (|v| = {:?})", V::NAME, S::NAME, v, m);
     }
     {
-        // is_magnitude_close_to: x = |v| accepted when exact (Rat) ; 1% off rejected everywhere
-        let off = S::of_f64(mf * 1.01);
+        // is_magnitude_close_to: x = |v| accepted when exact (Rat); x = 1.01 |v| + 0.01 rejected everywhere
+        // (x^2 is off by >= 2% relative and >= 1e-4 absolute, far beyond 4 * default epsilon / max_relative)
+        let off = S::back(m) * S::q(101, 100) + S::q(1, 100);
         check!(cx, !vv.k_is_magnitude_close_to(off), "{}<{}>::is_magnitude_close_to({:?}) on {:?} must be false (|v| = {:?})", V::NAME, S::NAME, off, v, m);
         check!(cx, !vv.k_is_magnitude_close_to(S::zero()), "{}<{}>::is_magnitude_close_to(0) on {:?} must be false", V::NAME, S::NAME, v);
     }
